@@ -14,7 +14,9 @@ cd "$T/r" || exit 2
 cp "$SD/demo_test.go" zz_seed_demo_test.go 2>/dev/null || cp "$SD/demo_test.go.txt" zz_seed_demo_test.go
 BASE=$(timeout 300 go test -vet=off -count=1 -run 'TestSeedDemo' . 2>&1 | tail -1)
 rm -f zz_seed_demo_test.go
-if ! git apply "$SD/patch.diff" 2>/dev/null; then
+# --3way merges against the blobs the patch was written for (recorded in its index lines), so that a hunk whose
+# context occurs twice in the file lands on the right copy even after /repo's HEAD has moved
+if ! git apply --3way "$SD/patch.diff" >/dev/null 2>&1 && ! git apply "$SD/patch.diff" 2>/dev/null; then
   if ! patch -p1 -s -F3 < "$SD/patch.diff" >/dev/null 2>&1; then echo "SEEDTEST $SD: patch does not apply"; exit 3; fi
   find . -name '*.orig' -delete; find . -name '*.rej' -delete
 fi
